@@ -14,8 +14,9 @@ CONSTANTS Regs,        \* indices into RegCat
           OwnerPeers,  \* peers acting against the owner role ({} switches the role off)
           KnownVals,   \* values of RequestMissingPayload.known
           AttSend,     \* attestations sent in AttestPayloads
+          FaultTabs,   \* tables on which the environment may arm a storage fault ({} switches faults off)
           RegFirst,    \* TRUE: messages only after the first registration (keeps random behaviours interesting)
-          MaxReg, MaxMsg, MaxTick, MaxOwn
+          MaxReg, MaxMsg, MaxTick, MaxOwn, MaxFault
 
 VARIABLE cnt
 mcvars == <<vars, cnt>>
@@ -33,8 +34,9 @@ SelfAdv == /\ OwnerPeers # {} /\ cnt.own < MaxOwn /\ Bump("own") /\ SelfAdvertis
 ReqAdv(p) == /\ cnt.own < MaxOwn /\ Bump("own") /\ RequestAdvert(p, 1..(chain + 1))
 ReqMissing(p, k) == /\ cnt.msg < MaxMsg /\ Bump("msg") /\ RecvRequestMissing(p, k)
 Attest(p, x) == /\ cnt.msg < MaxMsg /\ Bump("msg") /\ RecvAttest(p, x)
+Flt(t) == /\ cnt.fault < MaxFault /\ fault = NoFault /\ (RegFirst => cnt.reg > 0) /\ Bump("fault") /\ Fault(t)
 
-MCInit == Init /\ cnt = [reg |-> 0, msg |-> 0, tick |-> 0, own |-> 0]
+MCInit == Init /\ cnt = [reg |-> 0, msg |-> 0, tick |-> 0, own |-> 0, fault |-> 0]
 
 MCNext == \/ \E i \in Regs : Reg(i)
           \/ \E d \in Ticks : Adv(d)
@@ -44,6 +46,7 @@ MCNext == \/ \E i \in Regs : Reg(i)
           \/ \E p \in OwnerPeers : ReqAdv(p)
           \/ \E p \in OwnerPeers, k \in KnownVals : ReqMissing(p, k)
           \/ \E p \in OwnerPeers, x \in AttSend : Attest(p, x)
+          \/ \E t \in FaultTabs : Flt(t)
 
 MCSpec == MCInit /\ [][MCNext]_mcvars
 
